@@ -214,6 +214,39 @@ fn history(cfg: &Cfg, rep: &mut Report, kind: Kind, h: u64, ledgers: usize) {
             let t: u128 = invoke(e, &c, "get_total_supply", args!(e)).expect("get_total_supply");
             rep.check("ref", t == m.total(), &format!("C13/ref/{}/{f}/get_total_supply", kind.name()), || format!("after {op:?}: vote total supply {t}, sum of units {}", m.total()));
             rep.evaluations += (4 * n + 1) as u64;
+            // the past as seen from INSIDE a ledger that has already been written to: the ledger just
+            // closed and a few older ones (their answers must not be affected by this ledger's operations)
+            if cur >= 1 {
+                let mut ls: Vec<u32> = vec![cur - 1];
+                if cur >= 2 {
+                    ls.push(cur - 2);
+                }
+                for cl in checkpoint_ledgers.iter().rev().take(3) {
+                    if *cl < cur {
+                        ls.push(*cl);
+                    }
+                }
+                if rng.chance(1, 2) {
+                    ls.push(rng.below(cur as u64) as u32);
+                }
+                ls.sort();
+                ls.dedup();
+                for l in ls {
+                    let (wv, wt) = m.at(l);
+                    let x = rng.idx(n);
+                    let gv = q_votes(x, l);
+                    let gt = q_total(l);
+                    rep.evaluations += 2;
+                    rep.count_n("past_queries", 2);
+                    rep.case(format!("{}/query-inside-written-ledger/{}", kind.name(), if l + 1 == cur { "just-closed" } else { "older" }));
+                    rep.check("past", gv == Ok(wv[x]) && gt == Ok(wt), &format!("C13/past/{}/lookup-inside-a-written-ledger", kind.name()), || {
+                        format!("inside ledger {cur} (already written to by {op:?}): votes of {x} at end of ledger {l} = {gv:?} (model {}), total = {gt:?} (model {wt})", wv[x])
+                    });
+                    if let (Ok(v), true) = (gv, asked.len() < 6000) {
+                        asked.push((Some(x), l, v));
+                    }
+                }
+            }
             // lookups of the current and of a future ledger are refused
             if oi == 0 {
                 for l in [cur, cur + 1, u32::MAX] {
